@@ -136,6 +136,8 @@ def _map_sources(v):
 def run(ctx):
     rule_F6(ctx)
     rule_N1(ctx)
+    from ..initrules import rule_I1
+    rule_I1(ctx, {'counter'})
     rule_T5(ctx)
     rule_T8i(ctx)
     # support: every evaluated point lies in the unit hypercube
